@@ -736,3 +736,38 @@ func (c *Ctx) rulesC08ver() {
 		c.undecided("C08.ver: no send on handlerEnd found in handlerLoop")
 	}
 }
+
+// rulesC08nb: reporting a timeout never blocks the goroutine that runs the
+// queue.
+func (c *Ctx) rulesC08nb() {
+	c.rule("C08.nb", "every send on Machine.errInternal (the buffered side channel reporting handler and eval timeouts) is a case of a select with a default branch: nobody is obliged to drain ErrInternal(), so a blocking send wedges the transition goroutine once the buffer is full")
+	fld := c.field(pm, "Machine", "errInternal")
+	if fld == nil {
+		return
+	}
+	n := 0
+	for _, f := range c.Funcs {
+		for _, b := range f.Blocks {
+			for _, ins := range b.Instrs {
+				switch x := ins.(type) {
+				case *ssa.Send:
+					if loadOfField(x.Chan) == fld {
+						n++
+						c.fail("C08.nb", funcKey(f)+": send on errInternal is non-blocking", ins.Pos(), "plain (blocking) send on errInternal")
+					}
+				case *ssa.Select:
+					for _, st := range x.States {
+						if st.Dir == types.SendOnly && loadOfField(st.Chan) == fld {
+							n++
+							c.check(!x.Blocking, "C08.nb", funcKey(f)+": send on errInternal is non-blocking", ins.Pos(),
+								"the select sending on errInternal has no default branch: with the 10-slot buffer full and no reader the transition goroutine blocks until some other case fires")
+						}
+					}
+				}
+			}
+		}
+	}
+	if n < 2 {
+		c.undecided(fmt.Sprintf("C08.nb: only %d sends on errInternal found (processHandlers and Eval expected)", n))
+	}
+}
